@@ -151,7 +151,8 @@ static J gen_c08 (uint64_t seed, uint64_t idx)
 			// a third of the truncations are the last thing done with the handle: nothing rewrites the length before close does
 			if (g.rng.chance (0.35)) { ops.push (mkop ("close")) ; in_rw = false ; }
 		}
-		else if (q < 94 && has_header (f)) { J c = mkop ("cmd") ; c ["id"] = "update_header" ; ops.push (c) ; }
+		else if (q < 93 && has_header (f)) { J c = mkop ("cmd") ; c ["id"] = "update_header" ; ops.push (c) ; }
+		else if (q < 94) { J c = mkop ("cmd") ; c ["id"] = "sync" ; ops.push (c) ; }
 		else if (q < 98) { ops.push (mkop ("close")) ; J o = mkop ("open") ; o ["mode"] = "rw" ; ops.push (o) ; rd = 0 ; wr = frames ; }
 		else { ops.push (mkop ("close")) ; in_rw = false ; }
 	}
@@ -272,6 +273,14 @@ static Verdict check_c09 (const J &plan)
 			g_os->in_lib = save ;
 			if (!s || !*s) { Finding f ; f.sig = make_sig_raw ("C09", "err.table", "-", "-", "none", "empty") ; f.detail = "sf_error_number (" + std::to_string (e) + ") is empty" ; v.findings.push_back (f) ; break ; }
 			if (strstr (s, "No error defined")) break ;
+		}
+		// the other two ways of getting at the message of the global error
+		{	char eb [64] ; memset (eb, 0x7f, sizeof (eb)) ;
+			bool save = g_os->in_lib ; g_os->in_lib = true ;
+			int rc = sf_error_str (nullptr, eb, 16) ;
+			g_os->in_lib = save ;
+			bool nul = false ; for (int k = 0 ; k < 16 ; k++) if (eb [k] == 0) nul = true ;
+			if (rc != 0 || !nul || eb [16] != 0x7f) { Finding f ; f.sig = make_sig_raw ("C09", "err.table", "-", "-", "none", "error_str") ; f.detail = "sf_error_str (NULL, buf, 16) returned " + std::to_string (rc) + ", left no NUL within 16 bytes or wrote beyond them" ; v.findings.push_back (f) ; }
 		}
 		v.probes ["error_table_sweeps"] ++ ;
 	}
